@@ -26,12 +26,6 @@ theorem span_spec_value (fl : Flags) (toks : List Tok) (v : Value) (h : parseVal
 def SpanSpecDocument : Prop :=
   ∀ (fl : Flags) (toks : List Tok) (d : Document), parseDocument fl toks = .ok d → Item.SpansAll fl [documentV d] toks
 
-/-- `span_spec` for values and types (kept from phase 1); documents: `span_spec_document` below (full). -/
-theorem span_spec_partial (fl : Flags) (toks : List Tok) :
-    (∀ v, parseValue fl toks = .ok v → Item.SpansAll fl [p .sof, valueV v, p .eof] toks) ∧
-    (∀ t, parseType fl toks = .ok t → Item.SpansAll fl [p .sof, typeV t, p .eof] toks) :=
-  ⟨span_spec_value fl toks, span_spec_type fl toks⟩
-
 /-- the reduction of the document statement to C01's: spans come for free from soundness, for EVERY view -/
 theorem span_spec_of_sound (hs : ParseSoundDocument) : SpanSpecDocument :=
   fun fl toks d h => matches_spans _ _ _ (hs fl toks d h).2
